@@ -281,6 +281,29 @@ func Gen(r *vh.Rand, o GenOpts) Scenario {
 	return sc
 }
 
+// Collide rewrites a generated scenario so that two of its label sets have DIFFERENT grouping labels whose
+// name/value texts concatenate to the same string (h="ab" vs ha="b", and a three-way a/ab/abc variant): group
+// identity must be the label set itself, never something derived from concatenated text or an unseparated hash.
+func Collide(r *vh.Rand, sc *Scenario) {
+	name := sc.LabelSets[0]["alertname"]
+	if r.Bool() {
+		sc.LabelSets[0] = map[string]string{"alertname": name, "h": "ab"}
+		sc.LabelSets[1] = map[string]string{"alertname": name, "ha": "b"}
+		sc.GroupBy = vh.Pick(r, [][]string{{"..."}, {"alertname", "h", "ha"}, {"h", "ha"}})
+	} else {
+		sc.LabelSets[0] = map[string]string{"alertname": name, "a": "bc"}
+		sc.LabelSets[1] = map[string]string{"alertname": name, "ab": "c"}
+		if len(sc.LabelSets) > 2 {
+			sc.LabelSets[2] = map[string]string{"alertname": name, "abc": ""}
+		}
+		sc.GroupBy = vh.Pick(r, [][]string{{"..."}, {"alertname", "a", "ab", "abc"}})
+	}
+	sc.Routes = nil
+	// both label sets fire together for a while
+	pre := []OpJ{{Kind: "alert", Dt: 0, LS: 0, Ends: int64(time.Hour)}, {Kind: "alert", Dt: int64(time.Second), LS: 1, Ends: int64(time.Hour)}}
+	sc.Ops = append(pre, sc.Ops...)
+}
+
 func abs64(x int64) int64 {
 	if x < 0 {
 		return -x
